@@ -173,3 +173,22 @@ func specGenuineER6(s *icmpDriver, p *packets.FrameParser, t uint8) bool {
 //@ ensures[C01.recv.fresh]  ret0 != nil ==> fresh(ret0)
 //@ ensures[C09.recv.state]  forall(k, 0, 256, s.sentProbes[k] == old(s.sentProbes[k]) && has(s.sentProbes, k) == old(has(s.sentProbes, k)))
 //@ modifies s.mu, packets.FrameParser.IP4, packets.FrameParser.IP6, packets.FrameParser.TCP, packets.FrameParser.ICMP4, packets.FrameParser.ICMP6, packets.FrameParser.Payload, packets.FrameParser.Layers, gopacket.DecodingLayerParser, elems(s.buffer), ghost clock, ghost ioFail
+
+// ---- C11 isolation: a packet that is a genuine reply for run a and for run b forces the two runs to share their
+// identity (the echo identifier). Together with C01 soundness: a reply to one run is never accepted by another
+// run whose identifier differs. Verified as a property of the specification functions themselves.
+func specIsolated(a, b *icmpDriver, p *packets.FrameParser, ta, tb uint8) bool {
+	ga := specGenuineTE4(a, p, ta) || specGenuineER4(a, p, ta) || specGenuineTE6(a, p, ta) || specGenuineER6(a, p, ta)
+	gb := specGenuineTE4(b, p, tb) || specGenuineER4(b, p, tb) || specGenuineTE6(b, p, tb) || specGenuineER6(b, p, tb)
+	return !(ga && gb) || a.echoID == b.echoID
+}
+
+//@ func specIsolated
+//@ requires[pre.nonnil]   a != nil && b != nil && p != nil
+//@ ensures[C11.iso.icmp]  ret0
+
+//@ func nextEchoID
+//@ safety C11
+//@ ensures[C11.echo.next] int(ret0) == (int(old(curEchoID.v)) + 1) % 65536 && int(curEchoID.v) == (int(old(curEchoID.v)) + 1) % 4294967296
+//@ lemma[C11.echo.distinct] forall(c, 0, 4294967296, forall(d, 1, 65536, (c + d) % 65536 != c % 65536))
+//@ modifies global curEchoID
